@@ -284,7 +284,7 @@ def run(ctx) -> None:
                 ctx.validated(1)
                 check_outcome(ctx, "count_auto", W, nt_auto, calls, outcome, base)
         # many patch pairs per worker (7 fully linked patches: 49 cross / 28 auto jobs): dispatch in batches must not lose jobs
-        w7 = World(root / "pc7", ctx.seed + 200, 7, 70 if quick else 140, closed="right", sep_deg=0.6)
+        w7 = World(root / "pc7", ctx.seed + 200, 7, 70 if quick else 140, closed="right", sep_deg=0.2)
         w7.prepare_trees()
         ctx.extra["pair_tasks_7_patches"] = dict(auto=len(w7.links.get_patch_pairs(w7.cref)), cross=len(w7.links.get_patch_pairs(w7.cref, w7.cunk)))
         for ep in ("count_cross", "count_auto"):
